@@ -6,6 +6,12 @@ property's conclusion directly on the IMPLEMENTATION's observations, with its ow
 state per (owner, spender): (last approved amount − spent since, live_until of that
 approval). It never calls the model's transition function.
 
+This file only parses (`parseLine`, `parseObs`, `minit`) and calls the monitor core
+`OZ.FungibleMon.Auth.checkCore` (OZ/Model/FungibleMon.lean), which OZ/Props/C02Mon.lean proves
+sound (it reports nothing on any observation sequence of the model). Not covered by that theorem
+(string level, kept here): `site=fungible.auth.getter_trap` (a `?` in the observation) and
+`site=fungible.auth.parse` (an observation line that does not parse).
+
  (0) a rejected call changes no balance and no allowance;
  (1) an accepted call lowers holder h's balance only if it is transfer/burn with h = from and
      h ∈ auth (`auth=` of the op line is the exact signer set the call ran with), or
@@ -24,98 +30,10 @@ approval). It never calls the model's transition function.
      the observation) is flagged too.
 -/
 namespace OZ.Drv.C02
-open OZ.Drv OZ.Drv.FungibleIO
+open OZ.Drv OZ.Drv.FungibleIO OZ.FungibleMon OZ.FungibleMon.Auth
 
-structure G where
-  rem : Int
-  lu : Nat
-
-structure Mon where
-  prev : Option Obs
-  g : List (Nat × Nat × G)
-  n : Nat := N          -- size of the observed universe (`n=` of the sequence label)
-  maxTtl : Nat := MAX_TTL   -- `max_ttl=` of the sequence label
-
-def gOf (g : List (Nat × Nat × G)) (o sp : Nat) : G :=
-  match g.find? (fun (a, b, _) => a = o ∧ b = sp) with
-  | some (_, _, v) => v
-  | none => ⟨0, 0⟩
-
-def gSet (g : List (Nat × Nat × G)) (o sp : Nat) (v : G) : List (Nat × Nat × G) :=
-  (o, sp, v) :: g.filter (fun (a, b, _) => ¬ (a = o ∧ b = sp))
-
-def pairs (n : Nat) : List (Nat × Nat) := (List.range n).flatMap (fun o => (List.range n).map (fun sp => (o, sp)))
-
-def firstSome {α} (l : List α) (f : α → Option String) : Option String :=
-  l.foldl (fun acc x => match acc with | some m => some m | none => f x) none
-
-def balAt (l : List Int) (i : Nat) : Int := (l[i]?).getD 0
-
-/-- (1): every balance that went down in an accepted call -/
-def checkDebits (n : Nat) (prev o : Obs) (g : List (Nat × Nat × G)) (kind : String) (a auth : List Nat)
-    (amt : Int) : Option String :=
-  firstSome (List.range n) (fun h =>
-    if balAt o.bal h < balAt prev.bal h then
-      if kind = "transfer" ∨ kind = "burn" then
-        if a.head? ≠ some h then
-          some s!"site=fungible.auth.debit_wrong_holder {kind} lowered the balance of {h}, who is not its from"
-        else if h ∉ auth then
-          some s!"site=fungible.auth.debit_unauthorized {kind} lowered the balance of {h} without {h}'s authorization (auth={auth})"
-        else none
-      else if kind = "transfer_from" ∨ kind = "burn_from" then
-        match a with
-        | sp :: f :: _ =>
-          let pa := prev.allowOf f sp
-          if f ≠ h then
-            some s!"site=fungible.auth.debit_wrong_holder {kind} lowered the balance of {h}, who is not its from"
-          else if sp ∉ auth then
-            some s!"site=fungible.auth.spender_unauthorized {kind} moved {h}'s tokens without the spender {sp}'s authorization (auth={auth})"
-          else if (gOf g f sp).lu < o.now then
-            some s!"site=fungible.auth.spend_expired {kind} spent an allowance whose live_until {(gOf g f sp).lu} passed (now {o.now})"
-          else if pa < amt then
-            some s!"site=fungible.auth.spend_uncovered {kind} of {amt} with allowance {pa}"
-          else if o.allowOf f sp ≠ pa - amt then
-            some s!"site=fungible.auth.spend_not_exact allowance {pa} became {o.allowOf f sp} after spending {amt}"
-          else none
-        | _ => some "site=fungible.auth.parse malformed spend op"
-      else if kind = "advance" then
-        some s!"site=fungible.auth.idle_debit the balance of {h} fell from {balAt prev.bal h} to {balAt o.bal h} while only the ledger moved (to {o.now}): nobody authorized a debit"
-      else
-        some s!"site=fungible.auth.debit_by_{kind} the balance of {h} went down in a {kind}"
-    else none)
-
-/-- (2): every allowance that went up -/
-def checkRaises (n : Nat) (prev o : Obs) (kind : String) (a auth : List Nat) (amt : Int) : Option String :=
-  firstSome (pairs n) (fun (x, y) =>
-    if o.allowOf x y > prev.allowOf x y then
-      if ¬ o.ok then some s!"site=fungible.auth.allowance_raise allowance({x},{y}) rose in a rejected call"
-      else if kind ≠ "approve" ∨ a ≠ [x, y] then
-        some s!"site=fungible.auth.allowance_raise allowance({x},{y}) rose from {prev.allowOf x y} to {o.allowOf x y} in {kind} a={a}"
-      else if x ∉ auth then
-        some s!"site=fungible.auth.approve_unauthorized allowance({x},{y}) raised without the owner's authorization (auth={auth})"
-      else if o.allowOf x y ≠ amt then
-        some s!"site=fungible.auth.approve_value allowance({x},{y}) is {o.allowOf x y} after approving {amt}"
-      else none
-    else none)
-
-/-- (2)+(3): allowance against the ghost counters -/
-def checkGhost (n : Nat) (o : Obs) (g : List (Nat × Nat × G)) : Option String :=
-  firstSome (pairs n) (fun (x, y) =>
-    let v := o.allowOf x y
-    let gh := gOf g x y
-    if v < 0 then some s!"site=fungible.auth.allowance_negative allowance({x},{y}) = {v}"
-    else if v > gh.rem then
-      some s!"site=fungible.auth.allowance_bound allowance({x},{y}) = {v} exceeds approved - spent = {gh.rem}"
-    else if o.now > gh.lu ∧ v ≠ 0 then
-      some s!"site=fungible.auth.expired_nonzero allowance({x},{y}) = {v} at ledger {o.now} although live_until {gh.lu} passed"
-    else if o.now ≤ gh.lu ∧ v ≠ gh.rem then
-      some s!"site=fungible.auth.live_allowance allowance({x},{y}) = {v} at ledger {o.now} but approved - spent = {gh.rem} is live until {gh.lu}"
-    else none)
-
-def orElse (a : Option String) (b : Unit → Option String) : Option String :=
-  match a with
-  | some m => some m
-  | none => b ()
+def minit (label : String) : Mon :=
+  { prev := none, g := [], n := labelN label, maxTtl := (kvNat? (words label) "max_ttl").getD MAX_TTL }
 
 def check (m : Mon) (opl obs : String) : Mon × Option String :=
   if obs.contains '?' then
@@ -123,56 +41,14 @@ def check (m : Mon) (opl obs : String) : Mon × Option String :=
   else
   match parseObs obs with
   | none => (m, some s!"site=fungible.auth.parse unparsable observation {obs}")
-  | some o =>
-    let prev : Obs := m.prev.getD
-      { ok := true, sup := 0, bal := List.replicate m.n 0, allow := [], now := o.now, evs := [], dem := [] }
-    let ws := words opl
-    let kind := (ws.drop 1).head?.getD ""
-    let a := natList ((kv? ws "a").getD "-")
-    let auth := natList ((kv? ws "auth").getD "-")
-    let amt := (kvInt? ws "amt").getD 0
-    let lu := (kvNat? ws "lu").getD 0
-    -- ghost update from the op line and the implementation's verdict only
-    let g' : List (Nat × Nat × G) :=
-      if ¬ o.ok then m.g
-      else match kind, a with
-        | "approve", [ow, sp] => gSet m.g ow sp ⟨amt, lu⟩
-        | "transfer_from", sp :: f :: _ => gSet m.g f sp ⟨(gOf m.g f sp).rem - amt, (gOf m.g f sp).lu⟩
-        | "burn_from", sp :: f :: _ => gSet m.g f sp ⟨(gOf m.g f sp).rem - amt, (gOf m.g f sp).lu⟩
-        | _, _ => m.g
-    let now := o.now
-    let rollback : Option String :=
-      if ¬ o.ok ∧ (o.bal ≠ prev.bal ∨ o.allow ≠ prev.allow) then
-        some "site=fungible.auth.rollback a rejected call changed a balance or an allowance"
-      else none
-    let bounds : Option String :=
-      if kind = "approve" then
-        let owner := a.head?.getD 0
-        let mustReject : Bool := decide (owner ∉ auth) || decide (amt < 0) || decide (lu > now + m.maxTtl - 1)
-          || (decide (amt > 0) && decide (lu < now))
-        if o.ok ∧ owner ∉ auth then
-          some s!"site=fungible.auth.approve_unauthorized approve accepted without the owner {owner}'s authorization (auth={auth})"
-        else if o.ok ∧ mustReject then
-          some s!"site=fungible.auth.approve_bounds approve amt={amt} lu={lu} accepted at ledger {now} (max live_until {now + m.maxTtl - 1})"
-        else if ¬ o.ok ∧ ¬ mustReject then
-          some s!"site=fungible.auth.approve_bounds approve amt={amt} lu={lu} rejected at ledger {now} although owner authorized, amt >= 0 and now <= lu <= {now + m.maxTtl - 1}"
-        else none
-      else none
-    let fail :=
-      orElse rollback fun _ =>
-      orElse bounds fun _ =>
-      orElse (if o.ok then checkDebits m.n prev o m.g kind a auth amt else none) fun _ =>
-      orElse (checkRaises m.n prev o kind a auth amt) fun _ =>
-      checkGhost m.n o g'
-    ({ m with prev := some o, g := g' }, fail)
+  | some o => checkCore m (parseLine opl) o
 
 def machine : Machine where
   σ := M
   init := initM
   op := stepLine
   μ := Mon
-  minit := fun label =>
-    { prev := none, g := [], n := labelN label, maxTtl := (kvNat? (words label) "max_ttl").getD MAX_TTL }
+  minit := minit
   mon := check
 
 end OZ.Drv.C02
